@@ -1,10 +1,11 @@
 (* C11 — Loan lifecycle and interest.  Property theorems only.
    The model uses the exact elapsed/period ratio where the code goes through a binary float (C11_partial: the
-   float path is validated on dyadic ratios only).  Also partial: "loans are closed only by ..." and "largest first as
-   far as funds allow" over whole histories are checked by the monitor; here: the sort, and each closing operation. *)
+   float path is validated on dyadic ratios only).  Proved over whole histories: the loan list changes only by a grant, a repayment or the
+   roll-back of a loan granted at the same instant, and closed loans never change again (LoanLife.v).  Also partial:
+   "largest first as far as funds allow" is checked by the monitor; here: the sort, and each closing operation. *)
 From Coq Require Import ZArith QArith List Sorting.Sorted Sorting.Permutation.
 From Basana Require Import Num.DecQ Num.DecQProofs Exchange.Model Exchange.AcctProofs Exchange.StepProofs
-     Exchange.OpProofs Exchange.LoanProofs.
+     Exchange.OpProofs Exchange.LoanProofs Exchange.Prims Exchange.Structure Exchange.LoanLife.
 Import ListNotations.
 Open Scope Q_scope.
 
@@ -63,3 +64,18 @@ Print Assumptions C11_autorepay_order_is_descending.
 Theorem C11_autorepay_order_is_a_permutation : forall ls, Permutation ls (sort_desc ls).
 Proof. exact sort_desc_perm. Qed.
 Print Assumptions C11_autorepay_order_is_a_permutation.
+
+(* over whole histories: every primitive transaction changes the loan list only by appending a new open loan, or by
+   closing one open loan through repay_loan (recording the interest charged at that moment) or through the cancellation
+   of a loan granted at the same instant; every operation is a sequence of such transactions (C01) *)
+Theorem C11_loans_change_only_by_grant_repayment_or_rollback : forall c s s',
+  WF s -> prim c s s' -> loans_step c s (s_loans s) (s_loans s').
+Proof. exact prim_loans. Qed.
+Print Assumptions C11_loans_change_only_by_grant_repayment_or_rollback.
+
+(* a closed loan never changes again *)
+Theorem C11_closed_loans_never_change_again : forall c ops s i l,
+  cfg_ok c -> ops_ok ops -> WF s ->
+  nth_error (s_loans s) i = Some l -> l_open l = false -> nth_error (s_loans (run c s ops)) i = Some l.
+Proof. exact closed_loans_final. Qed.
+Print Assumptions C11_closed_loans_never_change_again.
